@@ -18,7 +18,7 @@ LEAN_MODULES = ["NiftyVerif.Core.Proto", "NiftyVerif.Model.Kl", "NiftyVerif.Mode
                 "NiftyVerif.Props.C19"]
 DRIVER = "Driver/C19.lean"
 OBLIGATIONS = ["NiftyVerif.C19." + t for t in (
-    "kl_value_avg", "hasFDerivAt_list_sum", "kl_grad_avg", "kl_metric_avg", "kl_grad_constants", "insert_remove_inverse",
+    "kl_value_avg", "hasFDerivAt_list_sum", "kl_grad_avg", "kl_metric_avg", "kl_metric_posDef", "kl_grad_constants", "insert_remove_inverse",
     "constants_removed_and_fixed", "at_keeps_residuals", "mirrored_average_symmetric", "classic_local_item")]
 RULE = ("case = (implementation classic/JAX, three latent keys a,b,c with 1..2 entries, data size, integer response, "
         "non-linear forward model exp/tanh/quadratic, constants ⊆ keys, point estimates ⊊ keys, mirrored or not (classic), "
@@ -54,7 +54,7 @@ def gen_case(rng, quick=True, impl=None, consts=None, pes=None):
                 pos=[rs(dyadic(rng, -1, 1, 2)) for _ in range(n)], tangent=[rs(dyadic(rng, -1, 1, 2)) for _ in range(n)],
                 newpos=[rs(dyadic(rng, -1, 1, 2)) for _ in range(n)],
                 constants=sorted(consts), point_estimates=sorted(pes), mirror=rng.random() < 0.7,
-                n_samples=rng.randint(1, 2), seed=rng.randint(0, 2 ** 31 - 1),
+                n_samples=rng.randint(1, 2), seed=rng.randint(0, 2 ** 31 - 1), map_mode=False,
                 kl_map=rng.choice(["vmap", "lmap", "smap"]), ovi_jit=rng.random() < 0.4, driver=False)
 
 
@@ -205,12 +205,15 @@ def real_jax(c):
                              kl_map=kmap)
         keys = jax.random.split(jax.random.PRNGKey(c["seed"]), c["n_samples"])
         cg_kw = dict(absdelta=1e-14, maxiter=200, miniter=2)
-        smp, _ = ovi.draw_linear_samples(p, keys, point_estimates=pe, cg_kwargs=cg_kw)
+        if c["n_samples"] == 0:
+            smp = jft.Samples(pos=p, samples=None, keys=None)       # MAP: the "average" is the Hamiltonian at the position
+        else:
+            smp, _ = ovi.draw_linear_samples(p, keys, point_estimates=pe, cg_kwargs=cg_kw)
         t = mk(fll(c["tangent"]))
         v, g = ovi.kl_value_and_grad(p, primals_samples=smp)
         met = ovi.kl_metric(p, t, primals_samples=smp)
         out = dict(n=len(smp), value=float(v), grad_full=flat(g, KEYS), metric_full=flat(met, KEYS))
-        ss = [s for s in smp]
+        ss = [s for s in smp] if len(smp) else [p]
         out["samples"] = np.array([flat(s, KEYS) for s in ss])
         ham = lambda s: lh(s) + 0.5 * jft.vdot(s, s)
         vals, grads, mets = [], [], []
@@ -229,6 +232,10 @@ def real_jax(c):
             xnew = p        # nothing to minimise over (the real code rejects an empty liquid tree)
         out["x_after"] = flat(xnew, KEYS)
         out["pos"] = flat(p, KEYS)
+        if len(smp) == 0:
+            out["res_before"] = out["res_after"] = np.zeros((0, sum(c["sizes"])))
+            out["samples2"] = out["samples"]
+            return out
         smp2 = smp.at(xnew)
         out["res_before"] = np.array([flat(jax.tree_util.tree_map(lambda a: a[i], smp._samples), KEYS) for i in range(len(smp))])
         out["res_after"] = np.array([flat(jax.tree_util.tree_map(lambda a: a[i], smp2._samples), KEYS) for i in range(len(smp2))])
@@ -264,6 +271,7 @@ def oracle(case):
         return (f"{case['impl']} sampled KL raised {r['error']}", dict(sig, what="error", error=r["error"]))
     n = r["n"]
     want_n = case["n_samples"] * (2 if (case["mirror"] or case["impl"] == "jax") else 1)
+    n = max(n, 0)
     if n != want_n:
         return (f"{n} samples instead of {want_n}", dict(sig, what="count"))
     var = [k for k in KEYS if k not in case["constants"]]
@@ -345,6 +353,10 @@ def run(ctx):
     for cs, ps in splits:
         for impl in (("cl", "jax") if not ctx.quick else (rng.choice(["cl", "jax"]),)):
             cases.append(gen_case(rng, ctx.quick, impl=impl, consts=cs, pes=ps))
+    for _ in range(ctx.n(1, 4)):
+        c = gen_case(rng, ctx.quick, impl="jax")
+        c["n_samples"] = 0          # MAP mode of the JAX KL (empty Samples)
+        cases.append(c)
     for _ in range(ctx.n(1, 6)):
         c = gen_case(rng, ctx.quick, impl="cl", consts=[rng.choice(KEYS)], pes=rng.choice([[], [rng.choice(KEYS)]]))
         c["driver"] = True
@@ -363,11 +375,11 @@ def run(ctx):
         r = real(c)
         if is_err(r):
             continue
-        lines.append(dict(op="average", values=[rs(v) for v in r["vals"]], n=r["n"]))
+        lines.append(dict(op="average", values=[rs(v) for v in r["vals"]], n=max(r["n"], 1)))
         meta.append((c, "value", r["value"]))
         G = r["grads"] if c["impl"] == "cl" else r["grads_full"]
         if G.shape[1]:
-            lines.append(dict(op="avgvec", values=[[rs(x) for x in row] for row in G], n=r["n"]))
+            lines.append(dict(op="avgvec", values=[[rs(x) for x in row] for row in G], n=max(r["n"], 1)))
             meta.append((c, "grad", r["grad"] if c["impl"] == "cl" else r["grad_full"]))
         if c["impl"] == "cl" and c["mirror"]:
             # classic list: (mean, residual, neg) -> items, residual taken from the un-negated sample
